@@ -139,6 +139,9 @@ func c08(r *core.Run) {
 				continue
 			}
 			ca := p.NormCond(ifi)
+			if ca.Alt != nil {
+				ca = ca.Alt // the comparison sits in a tiny helper or record method (name.ExpiredAt(height))
+			}
 			rel := relOnEdge(p, ca, !ca.Neg, ctxIs("BlockHeight"), storeField(rnsNames, ".Expires"))
 			if rel == "" && ca.Kind == "cmp" {
 				// the difference kept in a variable first (remaining := Expires - height on one arm, 0 on the other):
